@@ -215,6 +215,15 @@ fn res<T>(r: Result<Result<T, StamError>, String>, f: impl FnOnce(T) -> Option<u
 /// Executes one operation through the direct API. `m` is the model state *before* the operation.
 /// Restart and Reindex are handled by the world, not here.
 pub fn exec_direct(store: &mut AnnotationStore, m: &Model, op: &Op) -> ExecResult {
+    // building the request (handles from numbers, builders) is library code too: a panic there is an
+    // outcome of the operation, not a harness error
+    match catch(std::panic::AssertUnwindSafe(|| exec_direct_inner(store, m, op))) {
+        Ok(r) => r,
+        Err(p) => ExecResult::Panic(p),
+    }
+}
+
+fn exec_direct_inner(store: &mut AnnotationStore, m: &Model, op: &Op) -> ExecResult {
     match op {
         Op::AddResource { id, text } => res(
             catch(|| {
